@@ -153,33 +153,40 @@ static int filter_assembly_str_fsa(const char unfiltered_str[],
   filter_op filter_state = BEGIN;
   int j = 0;
   int i = 0;
+// a line with more significant characters than fit is rejected, not truncated
+#define STORE_FILTERED(ch)                                                     \
+  {                                                                            \
+    FAIL_IF_ERR(j >= MAX_LINE_LEN - 1);                                        \
+    filter_str[j++] = (char)(ch);                                              \
+  }
   while (unfiltered_str[i] != ';' && unfiltered_str[i] != '%' &&
          unfiltered_str[i] != '\r' && unfiltered_str[i] != '\n' &&
-         unfiltered_str[i] != '\0' && j < MAX_LINE_LEN - 1) {
+         unfiltered_str[i] != '\0') {
     switch (filter_state) {
     case BEGIN:
       if (unfiltered_str[i] >= 'A' && unfiltered_str[i] <= 'z') {
-        filter_str[j++] = (char)tolower(unfiltered_str[i]);
+        STORE_FILTERED(tolower(unfiltered_str[i]));
         filter_state = FIRST_CH;
       }
       break;
     case FIRST_CH:
-      if (unfiltered_str[i] > '!')
-        filter_str[j++] = (char)tolower(unfiltered_str[i]);
-      else if (unfiltered_str[i] == ' ' || unfiltered_str[i] == '\t') {
-        filter_str[j++] = ' ';
+      if (unfiltered_str[i] > '!') {
+        STORE_FILTERED(tolower(unfiltered_str[i]));
+      } else if (unfiltered_str[i] == ' ' || unfiltered_str[i] == '\t') {
+        STORE_FILTERED(' ');
         filter_state = SPACE_FOUND;
       }
       break;
     case SPACE_FOUND:
       if (unfiltered_str[i] > '!')
-        filter_str[j++] = (char)tolower(unfiltered_str[i]);
+        STORE_FILTERED(tolower(unfiltered_str[i]));
       break;
     }
     // last printable ascii character (bytes above 0x7f are negative as char)
     FAIL_IF_ERR((unsigned char)unfiltered_str[i] > '~');
     i++;
   }
+#undef STORE_FILTERED
   return i;
 }
 
@@ -192,7 +199,8 @@ static int str_to_instr(struct instr *instr_data, const char unfiltered_str[],
   char filter_str[FILTERED_STR_LEN] = {'\0'};
   // sanitize user input and copy filtered string to filter_str
   int ch_pos = filter_assembly_str_fsa(unfiltered_str, filter_str);
-  FAIL_IF_MSG(ch_pos == ASM_ERROR, "Printable ascii characters only\n");
+  FAIL_IF_MSG(ch_pos == ASM_ERROR,
+              "line too long or not printable ascii characters only\n");
   // skip comments/macro
   while (unfiltered_str[ch_pos] != '\n' && unfiltered_str[ch_pos] != '\r' &&
          unfiltered_str[ch_pos] != '\0')
